@@ -7,8 +7,10 @@ import (
 	"context"
 	"encoding/base64"
 	"encoding/hex"
+	"encoding/json"
 	"fmt"
 	"io"
+	"net"
 	"net/http"
 	"net/http/httptest"
 	"net/url"
@@ -16,6 +18,8 @@ import (
 	"sort"
 	"strconv"
 	"strings"
+	"sync"
+	"syscall"
 	"testing"
 	"time"
 	"unicode"
@@ -79,6 +83,20 @@ type Op struct {
 	// call: another use of the SAME long-lived RelyingParty between the logins and callbacks (see callKinds)
 	Call string `json:"call,omitempty"`
 	Arg  string `json:"arg,omitempty"`
+
+	// callback: what the provider's token endpoint (owned by the harness) answers to the 1st, 2nd, ... token request this
+	// callback causes (see faultKinds; "" = the provider answers itself; requests beyond the list are answered by the provider)
+	Faults []string `json:"faults,omitempty"`
+	// callback with CodeQ "of": the code parameter is the code of attempt CodeAttempt (modulo attempts so far)
+	CodeAttempt int `json:"code_attempt,omitempty"`
+
+	// overlap: the callbacks Par (2-3, Kind callback) are delivered to ONE shared rp.CodeExchangeHandler while the harness
+	// HOLDS every token request at the provider's token endpoint. Sched is the schedule: the first occurrence of k starts
+	// callback k (it runs until its token request is parked or it returns), every later occurrence releases the parked
+	// token request of k (it runs until the next one is parked or it returns); an entry that does not apply is skipped;
+	// after the list every callback not yet started is started and all parked requests are released in index order.
+	Par   []Op  `json:"par,omitempty"`
+	Sched []int `json:"sched,omitempty"`
 }
 
 // KV is one request parameter.
@@ -617,6 +635,10 @@ func genCallback(t *rapid.T, label string, browser int, latest map[int]int, nAtt
 	// the transport: mostly what the provider was asked to use for the attempt the callback refers to
 	genTransport(t, label, &o, o.Attempt >= 0 && o.Attempt < len(formPost) && formPost[o.Attempt])
 	o.TokenExtra = rapid.IntRange(0, 5).Draw(t, label+"tx") == 0
+	// one callback in six meets a failing token endpoint
+	if rapid.IntRange(0, 5).Draw(t, label+"faulty") == 0 {
+		o.Faults = genFaults(t, label+"fault-")
+	}
 	return o
 }
 
@@ -714,6 +736,15 @@ func genCase0(t *rapid.T) Case {
 		}
 		c.Ops = append(c.Ops, o)
 	}
+	// one history in four ends with overlapping callbacks on the shared handler (see hold_test.go), one in three of those
+	// with one more sequential callback afterwards
+	if !noFlow && rapid.IntRange(0, 3).Draw(t, "overlap") == 0 {
+		nAttempts = genOverlap(t, &c, "ov-", nAttempts, latest, prevStates)
+		if rapid.IntRange(0, 2).Draw(t, "ov-then") == 0 {
+			b := rapid.IntRange(0, 1).Draw(t, "ov-then-browser")
+			c.Ops = append(c.Ops, genCallback(t, "ov-then-", b, latest, nAttempts, c.PKCE, true, false, formPost))
+		}
+	}
 	return c
 }
 
@@ -796,12 +827,57 @@ type provReq struct {
 	Form   url.Values
 	Auth   string
 	Status int
+	Fault  string // the harness answered in the provider's place (see faultKinds); "lost": the provider answered, the response never arrived
+	Tag    int    // the delivery (callback) whose request context the request was made under; 0 = none
+	Access string // access_token of a 200 token response
 }
 
-// transport serves the RP's outgoing HTTP requests from the in-process provider and records them.
+// reached: the provider saw the request.
+func (r provReq) reached() bool { return r.Fault == "" || r.Fault == "lost" }
+
+// answered200: the RP received the provider's 200.
+func (r provReq) answered200() bool { return r.Fault == "" && r.Status == 200 }
+
+// delivery is one callback request on its way through the RP: the handlers that ran for it, the provider requests made
+// under its request context, the plan of token endpoint faults.
+type delivery struct {
+	id     int
+	hits   handlerHits
+	faults []string
+	nTok   int
+	reqs   []provReq
+}
+
+type deliveryKey struct{}
+
+// transport serves the RP's outgoing HTTP requests from the in-process provider and records them. The token endpoint is
+// the harness's: a token request can be answered with a fault instead (delivery.faults) and, while a gate is installed,
+// is parked until the schedule releases it.
 type transport struct {
-	sut  *vkit.SUT
-	reqs []provReq
+	sut     *vkit.SUT
+	mu      sync.Mutex // guards reqs, cur, deliveries' fields
+	serve   sync.Mutex // the provider serves one request at a time
+	reqs    []provReq
+	cur     *delivery           // the sequential delivery in progress / the overlapped one that moved last (requests whose context carries no delivery count for it)
+	gate    *gate               // set during an overlap
+	onToken func(code string) // a token request reached the provider
+}
+
+func deliveryOf(ctx context.Context) *delivery {
+	d, _ := ctx.Value(deliveryKey{}).(*delivery)
+	return d
+}
+
+// faultKinds: what a token request can meet instead of the provider's answer: a gateway's 502 / 503 / 504 or a 500 without
+// an OAuth body, a 503 with one, a refused / reset connection, or the provider's answer getting lost on the way back.
+var faultKinds = []string{"502", "503", "504", "500", "503-oauth", "refused", "reset", "lost"}
+
+func faultResponse(r *http.Request, status int, ctype, body string) *http.Response {
+	return &http.Response{
+		Status: fmt.Sprintf("%d %s", status, http.StatusText(status)), StatusCode: status,
+		Proto: "HTTP/1.1", ProtoMajor: 1, ProtoMinor: 1,
+		Header: http.Header{"Content-Type": {ctype}}, Body: io.NopCloser(strings.NewReader(body)), ContentLength: int64(len(body)), Request: r,
+	}
 }
 
 func (tr *transport) RoundTrip(r *http.Request) (*http.Response, error) {
@@ -821,14 +897,85 @@ func (tr *transport) RoundTrip(r *http.Request) (*http.Response, error) {
 	if strings.HasPrefix(r.Header.Get("Content-Type"), "application/x-www-form-urlencoded") {
 		rec.Form, _ = url.ParseQuery(string(body))
 	}
+	isToken := r.URL.Path == tr.sut.Paths["token"]
+	tagged := deliveryOf(r.Context())
+	tr.mu.Lock()
+	d := tagged
+	if d == nil {
+		d = tr.cur
+	}
+	g := tr.gate
+	fault := ""
+	if tagged != nil {
+		rec.Tag = tagged.id
+	}
+	if isToken && d != nil {
+		if d.nTok < len(d.faults) {
+			fault = d.faults[d.nTok]
+		}
+		d.nTok++
+	}
+	tr.mu.Unlock()
+	record := func() {
+		tr.mu.Lock()
+		tr.reqs = append(tr.reqs, rec)
+		if tagged != nil {
+			tagged.reqs = append(tagged.reqs, rec)
+		}
+		tr.mu.Unlock()
+	}
+	if isToken && g != nil && d != nil {
+		// until the schedule releases this request (a request without a delivery in its context is taken for one of the
+		// callback the scheduler started / released last)
+		g.park(d)
+	}
+	switch fault {
+	case "502", "503", "504", "500":
+		rec.Fault = fault
+		rec.Status, _ = strconv.Atoi(fault)
+		record()
+		return faultResponse(r, rec.Status, "text/html", "<html><body><h1>"+http.StatusText(rec.Status)+"</h1>upstream connect error</body></html>"), nil
+	case "503-oauth":
+		rec.Fault, rec.Status = fault, 503
+		record()
+		return faultResponse(r, 503, "application/json", `{"error":"temporarily_unavailable","error_description":"try again later"}`), nil
+	case "refused":
+		rec.Fault = fault
+		record()
+		return nil, &net.OpError{Op: "dial", Net: "tcp", Err: syscall.ECONNREFUSED}
+	case "reset":
+		rec.Fault = fault
+		record()
+		return nil, &net.OpError{Op: "read", Net: "tcp", Err: syscall.ECONNRESET}
+	}
+	tr.serve.Lock()
+	if isToken && tr.onToken != nil {
+		tr.mu.Lock()
+		tr.onToken(rec.Form.Get("code"))
+		tr.mu.Unlock()
+	}
 	resp := vkit.Serve(tr.sut.Handler, tr.sut.Store, sr)
+	tr.serve.Unlock()
 	if resp.Panic != nil {
 		rec.Status = 500
-		tr.reqs = append(tr.reqs, rec)
+		record()
 		return nil, fmt.Errorf("provider panicked: %v", resp.Panic)
 	}
 	rec.Status = resp.Status
-	tr.reqs = append(tr.reqs, rec)
+	if fault == "lost" {
+		rec.Fault = fault
+		record()
+		return nil, io.ErrUnexpectedEOF
+	}
+	if isToken && resp.Status == 200 {
+		var tok struct {
+			AccessToken string `json:"access_token"`
+		}
+		if json.Unmarshal(resp.Body, &tok) == nil {
+			rec.Access = tok.AccessToken
+		}
+	}
+	record()
 	return &http.Response{
 		Status: fmt.Sprintf("%d %s", resp.Status, http.StatusText(resp.Status)), StatusCode: resp.Status,
 		Proto: "HTTP/1.1", ProtoMajor: 1, ProtoMinor: 1,
@@ -859,6 +1006,7 @@ type handlerHits struct {
 	errHandler   int
 	cbState      string
 	cbTokens     bool
+	cbAccess     string // the access token the application callback received
 }
 
 type world struct {
@@ -886,6 +1034,8 @@ type world struct {
 	calls          []string    // the other calls made on the RelyingParty so far (for messages)
 	tokens         *heldTokens // what the application holds from the latest completed login
 	probes         int
+	nDeliveries    int
+	handlers       map[bool]http.HandlerFunc // the application's long-lived callback handlers (without / with a token-request parameter option)
 }
 
 type heldTokens struct{ access, refresh, id string }
@@ -1036,6 +1186,13 @@ func run(c Case) (res *vkit.Result) {
 	pspec.S256 = !c.NoS256
 	w.sut = vkit.MustBuild(pspec, w.st)
 	w.tr = &transport{sut: w.sut}
+	w.tr.onToken = func(code string) {
+		for _, a := range w.att {
+			if a.code != "" && a.code == code {
+				a.spent = true
+			}
+		}
+	}
 
 	// relying party
 	var chOpts []httphelper.CookieHandlerOpt
@@ -1064,11 +1221,15 @@ func run(c Case) (res *vkit.Result) {
 	if c.CustomHandlers {
 		opts = append(opts,
 			rp.WithUnauthorizedHandler(func(rw http.ResponseWriter, r *http.Request, desc, state string) {
-				w.hits.unauthorized++
+				w.tr.mu.Lock()
+				w.hitsOf(r).unauthorized++
+				w.tr.mu.Unlock()
 				http.Error(rw, "custom-unauthorized", http.StatusForbidden)
 			}),
 			rp.WithErrorHandler(func(rw http.ResponseWriter, r *http.Request, et, ed, state string) {
-				w.hits.errHandler++
+				w.tr.mu.Lock()
+				w.hitsOf(r).errHandler++
+				w.tr.mu.Unlock()
 				http.Error(rw, "custom-error", http.StatusBadGateway)
 			}))
 	}
@@ -1089,6 +1250,8 @@ func run(c Case) (res *vkit.Result) {
 				w.login(i, c.Ops[i])
 			case "callback":
 				w.callback(i, c.Ops[i])
+			case "overlap":
+				w.overlap(i, c.Ops[i])
 			case "call":
 				w.call(i, c.Ops[i])
 			}
@@ -1591,8 +1754,86 @@ func (w *world) applyMut(j *jar, m Mut, browser int, q string, ref *attempt) str
 	return m.Kind
 }
 
+// hitsOf: the handler counters of the delivery the request belongs to (its context carries the delivery; a request
+// without one counts for the sequential delivery in progress, otherwise for the login / call in progress). Call with w.tr.mu held.
+func (w *world) hitsOf(r *http.Request) *handlerHits {
+	if d := deliveryOf(r.Context()); d != nil {
+		return &d.hits
+	}
+	if w.tr.cur != nil {
+		return &w.tr.cur.hits
+	}
+	return &w.hits
+}
+
+// exchangeHandler: the application's callback handler, built once per case (and per option list) like a handler
+// registered on a mux: every callback of the history goes through the same instance.
+func (w *world) exchangeHandler(tokenExtra bool) http.HandlerFunc {
+	if h, ok := w.handlers[tokenExtra]; ok {
+		return h
+	}
+	var params []rp.URLParamOpt
+	if tokenExtra {
+		params = append(params, rp.WithURLParam("foo", "bar"))
+	}
+	h := rp.CodeExchangeHandler(func(rw http.ResponseWriter, r *http.Request, tokens *oidc.Tokens[*oidc.IDTokenClaims], state string, _ rp.RelyingParty) {
+		w.tr.mu.Lock()
+		hits := w.hitsOf(r)
+		hits.callback++
+		hits.cbState = state
+		hits.cbTokens = tokens != nil && tokens.Token != nil && tokens.AccessToken != ""
+		if hits.cbTokens {
+			hits.cbAccess = tokens.AccessToken
+			w.tokens = &heldTokens{access: tokens.AccessToken, refresh: tokens.RefreshToken, id: tokens.IDToken}
+		}
+		w.tr.mu.Unlock()
+		rw.WriteHeader(http.StatusOK)
+		io.WriteString(rw, "welcome")
+	}, w.rp, params...)
+	if w.handlers == nil {
+		w.handlers = map[bool]http.HandlerFunc{}
+	}
+	w.handlers[tokenExtra] = h
+	return h
+}
+
+// prepared is a callback ready to be sent: the manipulations are applied, the model has read the jar.
+type prepared struct {
+	o     Op
+	d     *delivery
+	h     http.HandlerFunc
+	req   *http.Request
+	code  string
+	state bool // the model's verdict on the state check
+	// judge: the oracle; resp = the RP's answer, during = the provider requests this delivery caused, ov = nil for a
+	// sequential callback
+	judge func(resp *vkit.Resp, during []provReq, ov *ovInfo)
+}
+
+// ovInfo: what the oracle of an overlapped callback needs to know about the others.
+type ovInfo struct {
+	shared  bool // another callback of the overlap presented the same code: which of them the provider serves depends on the schedule
+	blind   bool // provider requests without a delivery in their context were seen: requests cannot be attributed to callbacks
+	blocked bool // after its start / a release the callback neither parked a token request nor returned until another callback moved on
+	window  []provReq // every provider request made during the overlap
+}
+
 // callback: the browser opens the RP's redirect URI with a query, sending whatever its jar holds.
 func (w *world) callback(i int, o Op) {
+	p := w.prepareCallback(i, o, "")
+	w.tr.mu.Lock()
+	w.tr.cur = p.d
+	before := len(w.tr.reqs)
+	w.tr.mu.Unlock()
+	resp := vkit.Serve(p.h, nil, p.req)
+	w.tr.mu.Lock()
+	w.tr.cur = nil
+	during := append([]provReq(nil), w.tr.reqs[before:]...)
+	w.tr.mu.Unlock()
+	p.judge(resp, during, nil)
+}
+
+func (w *world) prepareCallback(i int, o Op, where string) *prepared {
 	res := w.res
 	j := w.jar(o.Browser)
 
@@ -1673,6 +1914,12 @@ func (w *world) callback(i int, o Op) {
 	case "other":
 		if alt != nil && alt.code != "" {
 			code, codeOf = alt.code, alt
+		}
+	case "of":
+		if n := len(w.att); n > 0 {
+			if a := w.att[((o.CodeAttempt%n)+n)%n]; a.code != "" {
+				code, codeOf = a.code, a
+			}
 		}
 	}
 	if codeOf != nil && (codeOf.code == "" || codeOf.code != code) {
@@ -1776,24 +2023,23 @@ func (w *world) callback(i int, o Op) {
 	if hdr := j.header(); hdr != "" {
 		req.Header.Set("Cookie", hdr)
 	}
-	var params []rp.URLParamOpt
-	if o.TokenExtra {
-		params = append(params, rp.WithURLParam("foo", "bar"))
-	}
-	h := rp.CodeExchangeHandler(func(rw http.ResponseWriter, r *http.Request, tokens *oidc.Tokens[*oidc.IDTokenClaims], state string, _ rp.RelyingParty) {
-		w.hits.callback++
-		w.hits.cbState = state
-		w.hits.cbTokens = tokens != nil && tokens.Token != nil && tokens.AccessToken != ""
-		if w.hits.cbTokens {
-			w.tokens = &heldTokens{access: tokens.AccessToken, refresh: tokens.RefreshToken, id: tokens.IDToken}
+	w.nDeliveries++
+	d := &delivery{id: w.nDeliveries}
+	for _, f := range o.Faults {
+		if f != "" && !contains(faultKinds, f) {
+			f = "503"
 		}
-		rw.WriteHeader(http.StatusOK)
-		io.WriteString(rw, "welcome")
-	}, w.rp, params...)
-	w.hits = handlerHits{}
-	before := len(w.tr.reqs)
+		d.faults = append(d.faults, f)
+	}
+	req = req.WithContext(context.WithValue(req.Context(), deliveryKey{}, d))
+	h := w.exchangeHandler(o.TokenExtra)
 	wasSpent := codeOf != nil && codeOf.spent // some earlier callback already presented this code to the provider
-	resp := vkit.Serve(h, nil, req)
+	keyNotes := w.keyNotes
+	p := &prepared{o: o, d: d, h: h, req: req, code: code, state: stateMatch}
+	p.judge = func(resp *vkit.Resp, during []provReq, ov *ovInfo) {
+	w.tr.mu.Lock()
+	hits := d.hits
+	w.tr.mu.Unlock()
 	if resp.Panic != nil {
 		res.Fail("C17:panic@"+resp.PanicFrame(), "CodeExchangeHandler panicked: %v\n%s", resp.Panic, resp.Stack)
 		return
@@ -1802,32 +2048,48 @@ func (w *world) callback(i int, o Op) {
 		// default handlers: the unauthorized handler answers 401, the error handler 500
 		switch resp.Status {
 		case http.StatusUnauthorized:
-			w.hits.unauthorized++
+			hits.unauthorized++
 		case http.StatusInternalServerError:
-			w.hits.errHandler++
+			hits.errHandler++
 		}
 	}
-	during := w.tr.reqs[before:]
 	var tokenReqs []provReq
+	ok200, faulted := 0, ""
 	for _, r := range during {
 		if r.Path == w.sut.Paths["token"] {
 			tokenReqs = append(tokenReqs, r)
+			if r.answered200() {
+				ok200++
+			}
+			if r.Fault != "" {
+				faulted += "+" + r.Fault
+			}
 			for _, a := range w.att {
-				if a.code != "" && r.Form.Get("code") == a.code {
+				if a.code != "" && r.Form.Get("code") == a.code && r.reached() {
 					a.spent = true
 				}
 			}
 		}
 	}
-	j.absorb(resp.Header, time.Now(), true)
+	if ov == nil {
+		j.absorb(resp.Header, time.Now(), true)
+	}
+	// blind: the provider requests of this delivery are not known (overlap, requests without a delivery in their context)
+	blind := ov != nil && ov.blind
 
 	// ---- judge ---------------------------------------------------------------------------------------------
 	desc := fmt.Sprintf("callback op %d (browser %d, %s state=%q code=%q error=%q; jar state cookie: %s, pkce cookie: %s; muts %v)", i, o.Browser, o.Method, clip(q), clip(code), o.ErrorQ,
 		describeCookie(haveState, sOK, sDec, sWhy), describeCookie(havePKCE, pOK, pDec, pWhy), mutLabels)
-	if len(w.keyNotes) > 0 {
-		desc += " [" + strings.Join(w.keyNotes, "; ") + "]"
+	if len(keyNotes) > 0 {
+		desc += " [" + strings.Join(keyNotes, "; ") + "]"
 	}
-	outcome := fmt.Sprintf("status=%d callback=%d unauthorized=%d error-handler=%d provider-requests=%d token-requests=%d", resp.Status, w.hits.callback, w.hits.unauthorized, w.hits.errHandler, len(during), len(tokenReqs))
+	if where != "" {
+		desc = where + " " + desc
+	}
+	if faulted != "" {
+		desc += " [token endpoint faults met: " + faulted[1:] + "]"
+	}
+	outcome := fmt.Sprintf("status=%d callback=%d unauthorized=%d error-handler=%d provider-requests=%d token-requests=%d", resp.Status, hits.callback, hits.unauthorized, hits.errHandler, len(during), len(tokenReqs))
 	class := ""
 	switch {
 	case !stateMatch:
@@ -1835,15 +2097,17 @@ func (w *world) callback(i int, o Op) {
 		class = "must-reject:" + rejectReason
 		w.asserted++
 		w.nontrivial = true
-		if w.hits.callback > 0 {
+		if hits.callback > 0 {
 			res.Fail("C17:callback-invoked:"+coarse(rejectReason), "%s: the application callback was invoked although the state parameter does not equal the state in this browser's signed cookie (%s); %s", desc, rejectReason, outcome)
 		}
-		if len(tokenReqs) > 0 {
+		if blind {
+			res.Label("overlap:requests-not-attributable")
+		} else if len(tokenReqs) > 0 {
 			res.Fail("C17:token-request:"+coarse(rejectReason), "%s: %d request(s) reached the token endpoint although the state check must fail (%s); %s", desc, len(tokenReqs), rejectReason, outcome)
 		} else if len(during) > 0 {
 			res.Fail("C17:provider-request:"+coarse(rejectReason), "%s: the RP sent %s %s to the provider although the state check must fail (%s)", desc, during[0].Method, during[0].Path, rejectReason)
 		}
-		if w.hits.unauthorized == 0 {
+		if hits.unauthorized == 0 {
 			res.Fail("C17:unauthorized-not-run:"+coarse(rejectReason), "%s: the unauthorized handler did not run (%s); %s", desc, rejectReason, outcome)
 		}
 	case o.ErrorQ != "":
@@ -1860,7 +2124,7 @@ func (w *world) callback(i int, o Op) {
 				if len(tokenReqs) > 0 {
 					res.Fail("C17:token-request-without-pkce-cookie", "%s: PKCE is on and the pkce cookie does not decode (%s), yet %d request(s) reached the token endpoint (code_verifier %q); %s", desc, pWhy, len(tokenReqs), tokenReqs[0].Form["code_verifier"], outcome)
 				}
-				if w.hits.callback > 0 {
+				if hits.callback > 0 {
 					res.Fail("C17:callback-without-pkce-cookie", "%s: application callback invoked without a decodable pkce cookie; %s", desc, outcome)
 				}
 				break
@@ -1884,12 +2148,68 @@ func (w *world) callback(i int, o Op) {
 				break
 			}
 		}
+		// soundness whatever the provider answered: the application callback runs only after an exchange of THIS callback
+		// succeeded - a token request made for it (carrying its code and, checked above, the verifier of its pkce cookie)
+		// was answered 200 by the provider - and receives the tokens of such an answer, not those of another callback's
+		sound := func() {
+			if hits.callback > 0 && blind && w.c.PKCE {
+				// requests cannot be attributed through the context: by value - some token request of the overlap answered 200
+				// carried this callback's code together with the verifier of its pkce cookie
+				found := false
+				for _, r := range ov.window {
+					if r.Path == w.sut.Paths["token"] && r.answered200() && r.Form.Get("code") == code && r.Form.Get("code_verifier") == pDec {
+						found = true
+					}
+				}
+				if !found {
+					res.Fail("C17:callback-without-exchange", "%s: application callback invoked although no token request of the overlap that carried this callback's code and the verifier of its pkce cookie was answered successfully; %s", desc, outcome)
+				}
+			}
+			if hits.callback == 0 || blind {
+				return
+			}
+			switch {
+			case len(tokenReqs) == 0:
+				res.Fail("C17:callback-without-exchange", "%s: application callback invoked although no request reached the token endpoint for this callback; %s", desc, outcome)
+			case ok200 == 0:
+				res.Fail("C17:callback-after-failed-exchange", "%s: application callback invoked although none of the %d token request(s) of this callback was answered successfully (statuses / faults: %s); %s", desc, len(tokenReqs), describeTokenReqs(tokenReqs), outcome)
+			default:
+				own := false
+				for _, r := range tokenReqs {
+					if r.answered200() && r.Access != "" && r.Access == hits.cbAccess {
+						own = true
+					}
+				}
+				if hits.cbTokens && !own {
+					res.Fail("C17:callback-tokens-of-another-request", "%s: application callback received an access token that none of this callback's own token responses carried; %s", desc, outcome)
+				}
+			}
+		}
 		accept := codeOf != nil && codeOf.ok && !wasSpent && sendCode && (!w.c.PKCE || pDec == codeOf.verifier)
+		if len(d.faults) > 0 || faulted != "" {
+			res.Label("cb-fault-plan:" + faultPlanClass(d.faults))
+			res.Label(fmt.Sprintf("cb-faults-met:%d/token-requests:%d/auth-style:%d", strings.Count(faulted, "+"), len(tokenReqs), w.c.AuthStyle))
+		}
 		if accept && codeOf.nonce {
 			// an application that sets a nonce through a URL parameter option has to teach the verifier about it as well;
 			// whether the exchange completes is its business
 			class = "grey:nonce-set-through-an-option"
 			w.grey++
+			sound()
+		} else if accept && faulted != "" {
+			// the token endpoint failed this callback at least once: whether the RP (or x/oauth2's auth style probe) tries
+			// again is its business; every request it sent is judged above, the application callback by sound()
+			class = "state-ok:token-endpoint-fault"
+			w.asserted++
+			w.nontrivial = true
+			sound()
+		} else if accept && ov != nil && ov.shared {
+			// another callback of the overlap presents the same code: the provider redeems it once, for whichever request it
+			// gets first (and may invalidate it on a failed attempt)
+			class = "state-ok:code-also-presented-by-an-overlapping-callback"
+			w.asserted++
+			w.nontrivial = true
+			sound()
 		} else if accept {
 			class = "must-accept"
 			if codeOf != w.latestIn(o.Browser) || len(o.Muts) > 0 {
@@ -1901,18 +2221,20 @@ func (w *world) callback(i int, o Op) {
 			}
 			w.asserted++
 			switch {
-			case w.hits.callback != 1 || w.hits.unauthorized != 0 || w.hits.errHandler != 0:
+			case hits.callback != 1 || hits.unauthorized != 0 || hits.errHandler != 0:
 				last := "none"
 				if len(tokenReqs) > 0 {
 					last = fmt.Sprintf("%d", tokenReqs[len(tokenReqs)-1].Status)
 				}
 				res.Fail("C17:complete:callback-not-invoked", "%s: state matches the signed cookie, the code is fresh and the pkce cookie is the one issued with it, but the exchange did not complete (last token endpoint status %s, body %q); %s", desc, last, clip(string(resp.Body)), outcome)
-			case w.hits.cbState != q:
-				res.Fail("C17:complete:callback-state", "%s: application callback received state %q", desc, w.hits.cbState)
-			case !w.hits.cbTokens:
+			case hits.cbState != q:
+				res.Fail("C17:complete:callback-state", "%s: application callback received state %q", desc, hits.cbState)
+			case !hits.cbTokens:
 				res.Fail("C17:complete:callback-without-tokens", "%s: application callback invoked without tokens", desc)
-			case len(tokenReqs) == 0:
+			case len(tokenReqs) == 0 && !blind:
 				res.Fail("C17:complete:callback-without-exchange", "%s: application callback invoked but no request reached the token endpoint", desc)
+			default:
+				sound()
 			}
 		} else {
 			why := "code-not-redeemable"
@@ -1927,9 +2249,7 @@ func (w *world) callback(i int, o Op) {
 			}
 			class = "state-ok:exchange-cannot-succeed:" + why
 			w.asserted++
-			if w.hits.callback > 0 && len(tokenReqs) == 0 {
-				res.Fail("C17:callback-without-exchange", "%s: application callback invoked although no request reached the token endpoint; %s", desc, outcome)
-			}
+			sound()
 		}
 	}
 	if len(w.att) > 1 {
@@ -1960,7 +2280,7 @@ func (w *world) callback(i int, o Op) {
 		res.Label("cb-of-attempt:response_mode=" + mode + "/" + strings.SplitN(tclass, "+", 2)[0] + "/" + cookieClass)
 		if ref.browser != o.Browser {
 			from := "the-other-browser"
-			if o.Browser >= strangerBrowser {
+			if o.Browser >= strangerBrowser && o.Browser < strangerBrowser+2 {
 				from = "a-browser-that-never-logged-in"
 			}
 			pending := "pending"
@@ -1987,8 +2307,55 @@ func (w *world) callback(i int, o Op) {
 		}
 		res.Label("mut:" + l)
 	}
-	w.classes = append(w.classes, class+"/"+strings.Join(mutLabels, "+")+"/"+o.StateQ+nearKind+"/"+o.CodeQ+"/"+tclass)
-	w.note("callback op %d: %s -> %s", i, class, outcome)
+	if ov != nil {
+		res.Label("overlap-cb:" + class)
+		if ov.blocked {
+			res.Label("overlap:callback-blocked-without-a-parked-request")
+		}
+	}
+	fclass := ""
+	if len(d.faults) > 0 {
+		fclass = "/faults:" + strings.Join(d.faults, ",")
+	}
+	w.classes = append(w.classes, where+class+"/"+strings.Join(mutLabels, "+")+"/"+o.StateQ+nearKind+"/"+o.CodeQ+"/"+tclass+fclass)
+	w.note("%scallback op %d: %s -> %s", where, i, class, outcome)
+	}
+	return p
+}
+
+func describeTokenReqs(reqs []provReq) string {
+	var parts []string
+	for _, r := range reqs {
+		if r.Fault != "" {
+			parts = append(parts, "fault:"+r.Fault)
+		} else {
+			parts = append(parts, strconv.Itoa(r.Status))
+		}
+	}
+	return strings.Join(parts, ",")
+}
+
+// faultPlanClass: the shape of a fault plan for the histogram: which requests are failed, by what kind of fault.
+func faultPlanClass(plan []string) string {
+	if len(plan) == 0 {
+		return "none"
+	}
+	var parts []string
+	for _, f := range plan {
+		switch f {
+		case "":
+			parts = append(parts, "pass")
+		case "502", "503", "504":
+			parts = append(parts, "gateway")
+		case "500", "503-oauth":
+			parts = append(parts, "server")
+		case "lost":
+			parts = append(parts, "lost")
+		default:
+			parts = append(parts, "transport")
+		}
+	}
+	return strings.Join(parts, ",")
 }
 
 func (w *world) latestIn(b int) *attempt {
@@ -2055,6 +2422,14 @@ var prop = vkit.Prop[Case]{
 		"callbacks from a STRANGER browser (3 templates in 24: a jar that never opened the login URL - empty, or 1 in 4 holding state (+pkce) cookies a foreign handler minted for the very query - delivering the genuine state and code of any attempt, pending or completed, of another browser on the same RelyingParty instance), " +
 		"TRANSPORT: GET with query, or POST (1 in 5; 2 in 3 when the attempt referred to asked for form_post) with the parameters in an application/x-www-form-urlencoded body, state and code each also/only in the query with p=1/3 (equal values: one state parameter); " +
 		"one history in ten starts no flow at all (the jar holds only what others minted); " +
+		"TOKEN ENDPOINT FAULTS (the token endpoint is the harness's): one callback in six has a fault plan for its 1st-3rd token request (each entry a fault with p=4/5: gateway 502 / 503 / 504 / 500 without an OAuth body, 503 with one, refused / reset connection, " +
+		"the provider's answer lost on the way back; otherwise the provider answers) - every token request the RP sends (x/oauth2's auth style probe sends a second one when the style is auto and not yet known) is judged: code of the query, code_verifier of the pkce cookie; " +
+		"the application callback runs only after a token request of THIS callback was answered 200 and receives the access token of such an answer; completeness is not asserted for a callback that met a fault; " +
+		"all callbacks of a case go through ONE long-lived rp.CodeExchangeHandler per option list; " +
+		"OVERLAPPING CALLBACKS: one history in four ends with 2-3 callbacks (after a fresh login of each participating browser, 5 in 6) delivered to the shared handler while the harness HOLDS every token request: participant = the browser's own response / own state and cookies with " +
+		"the CODE of an earlier participant / the same callback URL opened twice / another participant's whole query from a browser with its own cookies / from a browser without cookies / a free callback as above; browsers 0, 1 (those of the history) and 4; 1 in 6 with a fault plan; " +
+		"schedule = generated list over the participants (first occurrence starts a callback, later ones release its parked token request; 2 in 3 start everybody first), at most one callback runs at a time; the sequential per-callback oracle with provider requests attributed through the request context; " +
+		"must-accept only for a code no other participant presents; 1 in 3 of those histories goes on with one more sequential callback; " +
 		"excluded from the domain: cookies minted under keys A for the right name by anyone but the RP or its replica, handlers whose keys the library cannot use (empty hash key, AES key not 16/24/32 bytes), empty application state, duplicate state parameters / cookies; " +
 		"non-trivial = the history contains a callback that must be refused, or one that must succeed although it is not the browser's latest attempt, or several attempts in one jar, or another call on the RelyingParty followed by the authorization-URL oracle, " +
 		"or a callback from a browser other than the one that started the attempt; " +
@@ -2113,6 +2488,30 @@ func TestMatrix(t *testing.T) {
 									{Kind: "callback", Tmpl: "otherbrowser", Browser: 0, Attempt: 3, StateQ: "attempt", CodeQ: "attempt", Method: "GET"},
 									{Kind: "callback", Tmpl: "otherbrowser", Browser: 0, Attempt: 3, StateQ: "attempt", CodeQ: "attempt", Method: "POST", StateIn: "both"},
 									{Kind: "callback", Tmpl: "match", Browser: 1, Attempt: 3, StateQ: "attempt", CodeQ: "attempt", Method: "POST", CodeIn: "both"},
+									// a failing token endpoint: the first two token requests of a genuine callback meet a gateway's 503 and a reset
+									// connection (the second one only where x/oauth2 probes the auth style); the code never reached the provider,
+									// so the same callback URL opened again with the cookies put back completes
+									{Kind: "login", State: "st-five"},
+									{Kind: "callback", Tmpl: "match", Attempt: 4, StateQ: "attempt", CodeQ: "attempt", Method: "GET", Faults: []string{"503", "reset"}},
+									{Kind: "callback", Tmpl: "restore", Attempt: 4, StateQ: "attempt", CodeQ: "attempt", Method: "GET",
+										Muts: []Mut{{Kind: "restore", Cookie: "state", N: 4}, {Kind: "restore", Cookie: "pkce", N: 4}}},
+									// overlapping callbacks on the shared handler, every token request held: browser 0 delivers its own response;
+									// while that exchange is held browser 1 (own pending login, own cookies) delivers its own state with the CODE of
+									// browser 0, and browser 0 opens its callback URL once more; browser 1's request is released first
+									{Kind: "login", State: "st-six"},
+									{Kind: "login", Browser: 1, State: "st-seven"},
+									{Kind: "overlap", Sched: []int{0, 1, 2, 1, 0, 2}, Par: []Op{
+										{Kind: "callback", Tmpl: "overlap-own", Attempt: 5, StateQ: "attempt", CodeQ: "attempt", Method: "GET"},
+										{Kind: "callback", Tmpl: "overlap-others-code", Browser: 1, Attempt: 6, StateQ: "attempt", CodeQ: "of", CodeAttempt: 5, Method: "GET"},
+										{Kind: "callback", Tmpl: "overlap-twice", Attempt: 5, StateQ: "attempt", CodeQ: "attempt", Method: "GET"},
+									}},
+									// the same with separate codes: both must complete whatever the release order
+									{Kind: "login", State: "st-eight"},
+									{Kind: "login", Browser: 1, State: "st-nine"},
+									{Kind: "overlap", Sched: []int{0, 1, 1, 0}, Par: []Op{
+										{Kind: "callback", Tmpl: "overlap-own", Attempt: 7, StateQ: "attempt", CodeQ: "attempt", Method: "GET"},
+										{Kind: "callback", Tmpl: "overlap-own", Browser: 1, Attempt: 8, StateQ: "attempt", CodeQ: "attempt", Method: "POST"},
+									}},
 								}}
 							// every near-miss kind of the state parameter against the genuine cookies of attempt 1 (all refused: the
 							// cookies stay in the jar for the matching callback that follows)
@@ -2136,7 +2535,9 @@ func TestMatrix(t *testing.T) {
 									got[l]++
 								}
 							}
-							if got["cb:must-reject:state-differs"] < 1+len(nearKinds) || got["cb:must-reject:state-param-absent"] < 1 || got["cb:must-accept"] < 3 || got["cb:must-reject:no-cookie"] < 3 ||
+							if got["cb:must-reject:state-differs"] < 1+len(nearKinds) || got["cb:must-reject:state-param-absent"] < 1 || got["cb:must-accept"] < 5 || got["cb:must-reject:no-cookie"] < 3 ||
+								got["cb:state-ok:token-endpoint-fault"] != 1 || got["cb:must-accept:not-the-latest-attempt-or-restored"] < 2 || got["cb:state-ok:code-also-presented-by-an-overlapping-callback"] < 2 ||
+								!contains(res.Labels, "overlap:callback-started-while-another-browser's-request-for-the-same-code-is-held") ||
 								!contains(res.Labels, "login:response-delivered-by:form_post") || !contains(res.Labels, "cb-of-attempt:response_mode=form_post/POST/no-state-cookie") {
 								t.Fatalf("matrix cell %+v: harness self-check: classes %v info=%v", c, got, res.Info)
 							}
